@@ -150,6 +150,14 @@ func (in *inliner) clone(n ast.Node, sub map[types.Object]ast.Expr) ast.Node {
 			return ue.X
 		}
 	}
+	// (&x).f (a pointer parameter bound to the address of a variable, selected through) is x.f
+	if sel, ok := out.(*ast.SelectorExpr); ok {
+		if ue, ok := ast.Unparen(sel.X).(*ast.UnaryExpr); ok && ue.Op == token.AND {
+			if _, isLit := ast.Unparen(ue.X).(*ast.CompositeLit); !isLit {
+				sel.X = ue.X
+			}
+		}
+	}
 	return out
 }
 
